@@ -239,6 +239,7 @@ pub enum Probe {
     Leaks,
     Release,
     CloneEq,
+    Wrappers,
 }
 
 #[derive(Clone, Debug)]
@@ -1306,6 +1307,18 @@ impl<K: KeyT, V: ValT> Harness for MapHarness<K, V> {
                     stats.probe(3 * self.cfg.universe as u64);
                 }
                 Probe::ManyMut => mp::probe_many_mut(sut, self.cfg.universe, stats)?,
+                Probe::Wrappers => {
+                    mp::probe_wrappers(rebuild, sut, self.cfg.universe, stats)?;
+                    // the by-reference Extend impls need Copy keys and values: plain flavour only
+                    use std::any::Any;
+                    if let Some(ps) = (sut as &mut dyn Any).downcast_mut::<MapSut<PKey, PVal>>() {
+                        let rb = |_: ()| -> MapSut<PKey, PVal> {
+                            let b: Box<dyn Any> = Box::new(rebuild());
+                            *b.downcast::<MapSut<PKey, PVal>>().ok().expect("flavour")
+                        };
+                        mp::probe_extend_refs(&|| rb(()), ps, self.cfg.universe, stats)?;
+                    }
+                }
                 Probe::Capacity => mp::probe_capacity(rebuild, sut, self.cfg.universe, stats)?,
                 Probe::TryReserve => mp::probe_try_reserve(rebuild, sut, self.cfg.universe, stats)?,
                 _ => {}
